@@ -155,7 +155,7 @@ func run(c *mon.Ctx) {
 	c.Floor("readpmt.split_on_section_boundary", 20)
 	c.Floor("readpmt.first_packet_holds_only_pointer_filler", 20)
 
-	c.Stream("pmt", c.N(20000, 300000), func(i int, r *gen.Rand) {
+	c.Stream("pmt", c.N(20000, 8000000), func(i int, r *gen.Rand) {
 		nStreams := -1
 		if r.Chance(12) {
 			nStreams = 0
